@@ -124,7 +124,32 @@ fn raw_to_parse_error(map: &CodeMap, err: Error, unicode: bool) -> Box<Error> {
     }
 
     let (message, span) = err.raw();
+    let span = snap_to_char_boundaries(map, span);
     Box::new(Error::from_loc(message, map.look_up_span(span), unicode))
+}
+
+/// Selectors and queries are lexed a second time from their evaluated text (interpolation
+/// resolved, escapes normalised). Offsets into that text are reused as offsets into the
+/// file, so when the two texts differ a span may begin or end inside a multi-byte
+/// character of the file, which `CodeMap::look_up_span` cannot slice.
+fn snap_to_char_boundaries(map: &CodeMap, span: codemap::Span) -> codemap::Span {
+    let file = map.find_file(span.low());
+    let source = file.source();
+    let mut low = (span.low() - file.span.low()) as usize;
+    let mut high = (span.high() - file.span.low()) as usize;
+
+    if source.is_char_boundary(low) && source.is_char_boundary(high) {
+        return span;
+    }
+
+    while !source.is_char_boundary(low) {
+        low -= 1;
+    }
+    while !source.is_char_boundary(high) {
+        high += 1;
+    }
+
+    file.span.subspan(low as u64, high as u64)
 }
 
 pub fn parse_stylesheet<P: AsRef<Path>>(
